@@ -153,6 +153,12 @@ func (e *Engine) load(repo string, verifDir string, pkgs []string) error {
 		}
 		e.axioms = append(e.axioms, cf.Axioms...)
 		e.lemmas = append(e.lemmas, cf.Lemmas...)
+		for _, gi := range cf.GlobalInits {
+			if e.globalInits == nil {
+				e.globalInits = map[string]*GlobalInit{}
+			}
+			e.globalInits[cf.PkgPath+":"+gi.Name] = gi
+		}
 		for _, g := range cf.Globals {
 			e.globals[g.Name] = g
 		}
